@@ -16,17 +16,25 @@ _ctx_cache = {}
 
 
 def stdlib_ctx(cert="rsa1"):
+    from sim.world import TICKETS
+    from nauyaca.security.tls import create_server_context
+    if TICKETS["allow"]:
+        # a world that studies session resumption: its own context (tickets on, own session cache)
+        return create_server_context(fx.crt(cert), fx.key(cert))
     k = ("std", cert)
     if k not in _ctx_cache:
-        from nauyaca.security.tls import create_server_context
         _ctx_cache[k] = create_server_context(fx.crt(cert), fx.key(cert))
     return _ctx_cache[k]
 
 
 def pyopenssl_ctx(cert="rsa1", request_client_cert=True):
+    from sim.world import TICKETS
+    from nauyaca.security.pyopenssl_tls import create_pyopenssl_server_context
+    if TICKETS["allow"]:
+        return create_pyopenssl_server_context(fx.crt(cert), fx.key(cert),
+                                               request_client_cert=request_client_cert)
     k = ("pyo", cert, request_client_cert)
     if k not in _ctx_cache:
-        from nauyaca.security.pyopenssl_tls import create_pyopenssl_server_context
         _ctx_cache[k] = create_pyopenssl_server_context(fx.crt(cert), fx.key(cert),
                                                         request_client_cert=request_client_cert)
     return _ctx_cache[k]
